@@ -1816,6 +1816,16 @@ impl Translator {
                 }
             }
             IntrinsicOperation::ArraySet => {
+                // TODO: code duplication, see inlining of array.push()
+                let Some(SolvedType::Function(args, _)) = self.get_ty(mono, func_node.clone())
+                else {
+                    unreachable!()
+                };
+                // third arg is element being stored
+                let arg_ty = &args[2];
+                if *arg_ty == SolvedType::Void {
+                    self.emit(st, Instr::PushNil(1));
+                }
                 self.emit(st, Instr::SetIndex(Reg::Top, Reg::Top));
             }
             IntrinsicOperation::ArrayPush => {
@@ -2210,71 +2220,69 @@ impl Translator {
             StmtKind::Assign(expr1, assign_op, rvalue) => {
                 let rvalue_ty = self.get_ty(mono, rvalue.node()).unwrap();
                 match assign_op {
-                    AssignOperator::Equal => {
-                        if rvalue_ty != SolvedType::Void {
-                            match &*expr1.kind {
-                                // variable assignment
-                                ExprKind::Variable(_) => {
-                                    let Declaration::Var(node) =
-                                        &self.statics.resolution_map[&expr1.id]
-                                    else {
-                                        panic!("expected variableto be defined in node");
-                                    };
-                                    let idx = offset_table.get(&node.id()).unwrap();
-                                    self.translate_expr(rvalue, offset_table, mono, st);
-                                    self.emit(st, Instr::StoreOffset(*idx));
-                                }
-                                // struct member assignment
-                                ExprKind::MemberAccess(accessed, field_name) => {
-                                    // TODO: if member function is being assigned to, that should be disallowed earlier by the compiler
-                                    // for instance, Person.fullname = (p: Person) -> "hello world". Should not be allowed.
-                                    self.translate_expr(rvalue, offset_table, mono, st);
-                                    self.translate_expr(accessed, offset_table, mono, st);
-                                    let idx = self.idx_of_field(
-                                        &self.statics,
-                                        mono,
-                                        accessed,
-                                        &field_name.v,
-                                    );
-                                    self.emit(st, Instr::SetField(idx, Reg::Top));
-                                }
-                                // array assignment
-                                ExprKind::IndexAccess(array, index) => {
-                                    let lhs_ty = self.get_ty(mono, array.node()).unwrap();
-                                    match lhs_ty {
-                                        SolvedType::Nominal(Nominal::Array, _) => {
-                                            // shortcut, just inline the array access code
-                                            self.translate_expr(array, offset_table, mono, st);
-                                            self.translate_expr(index, offset_table, mono, st);
-                                            self.translate_expr(rvalue, offset_table, mono, st);
-                                            self.emit(st, Instr::SetIndex(Reg::Top, Reg::Top));
-                                        }
-                                        _ => {
-                                            // interface method Index::index_set()
-                                            self.translate_expr(array, offset_table, mono, st);
-                                            self.translate_expr(index, offset_table, mono, st);
-                                            self.translate_expr(rvalue, offset_table, mono, st);
-
-                                            let index_iface_decl =
-                                                self.statics.get_iface_decl("prelude.Index");
-                                            let fn_index_set_ty = self.statics.index_set_types
-                                                [&stmt.id]
-                                                .solution()
-                                                .unwrap();
-                                            self.translate_iface_method_call_helper(
-                                                st,
-                                                mono,
-                                                &index_iface_decl,
-                                                1,
-                                                &fn_index_set_ty,
-                                            );
-                                        }
-                                    }
-                                }
-                                _ => unreachable!(),
+                    AssignOperator::Equal => match &*expr1.kind {
+                        // variable assignment
+                        ExprKind::Variable(_) => {
+                            if rvalue_ty != SolvedType::Void {
+                                let Declaration::Var(node) =
+                                    &self.statics.resolution_map[&expr1.id]
+                                else {
+                                    panic!("expected variableto be defined in node");
+                                };
+                                let idx = offset_table.get(&node.id()).unwrap();
+                                self.translate_expr(rvalue, offset_table, mono, st);
+                                self.emit(st, Instr::StoreOffset(*idx));
                             }
                         }
-                    }
+                        // struct member assignment
+                        ExprKind::MemberAccess(accessed, field_name) => {
+                            if rvalue_ty != SolvedType::Void {
+                                // TODO: if member function is being assigned to, that should be disallowed earlier by the compiler
+                                // for instance, Person.fullname = (p: Person) -> "hello world". Should not be allowed.
+                                self.translate_expr(rvalue, offset_table, mono, st);
+                                self.translate_expr(accessed, offset_table, mono, st);
+                                let idx =
+                                    self.idx_of_field(&self.statics, mono, accessed, &field_name.v);
+                                self.emit(st, Instr::SetField(idx, Reg::Top));
+                            }
+                        }
+                        // array assignment
+                        ExprKind::IndexAccess(array, index) => {
+                            let lhs_ty = self.get_ty(mono, array.node()).unwrap();
+                            match lhs_ty {
+                                SolvedType::Nominal(Nominal::Array, _) => {
+                                    // shortcut, just inline the array access code
+                                    self.translate_expr(array, offset_table, mono, st);
+                                    self.translate_expr(index, offset_table, mono, st);
+                                    self.translate_expr(rvalue, offset_table, mono, st);
+                                    // arrays of void use dummy values
+                                    if rvalue_ty == SolvedType::Void {
+                                        self.emit(st, Instr::PushNil(1));
+                                    }
+                                    self.emit(st, Instr::SetIndex(Reg::Top, Reg::Top));
+                                }
+                                _ => {
+                                    // interface method Index::index_set()
+                                    self.translate_expr(array, offset_table, mono, st);
+                                    self.translate_expr(index, offset_table, mono, st);
+                                    self.translate_expr(rvalue, offset_table, mono, st);
+
+                                    let index_iface_decl =
+                                        self.statics.get_iface_decl("prelude.Index");
+                                    let fn_index_set_ty =
+                                        self.statics.index_set_types[&stmt.id].solution().unwrap();
+                                    self.translate_iface_method_call_helper(
+                                        st,
+                                        mono,
+                                        &index_iface_decl,
+                                        1,
+                                        &fn_index_set_ty,
+                                    );
+                                }
+                            }
+                        }
+                        _ => unreachable!(),
+                    },
                     AssignOperator::PlusEq
                     | AssignOperator::MinusEq
                     | AssignOperator::StarEq
